@@ -95,6 +95,11 @@ def run(ctx) -> None:
     c06._aexit_falsy(Relabel(ctx, "R01.13"))
     from . import tooltables
     tooltables.tool_tables(ctx, "R01.12", tooltables.ITEMS_AND_END)
+    from . import objmodel
+    objmodel.tee_histories(ctx, "R01.14", depth=7 if getattr(ctx, "tier", "quick") == "thorough" else 5)
+    ctx.floor("tee_operations", 1000)
+    objmodel.merge_table(ctx, "R01.15")
+    ctx.floor("merge_table_cells_decided", 400)
     ctx.floor("tool_cells_decided", 120)
     ctx.floor("merge_cells", 6)
     ctx.floor("yield_sites", 18)
@@ -548,7 +553,7 @@ def r01_3(ctx) -> None:
             # no call other than tuple()/container reads is applied syntactically
             if value is not None and not transforming:
                 for sub in ast.walk(value):
-                    if isinstance(sub, ast.Call) and norm(sub.func) not in ("tuple",) and not (
+                    if isinstance(sub, ast.Call) and norm(sub.func) not in ("tuple", "cast", "typing.cast") and not (
                             isinstance(sub.func, ast.Attribute) and sub.func.attr in ("popleft", "pop")) and any(
                             any(x[0] in ("item", "result") for x in ctx.vals.expr(u, a.value if isinstance(a, ast.Starred) else a, n))
                             for a in sub.args):
